@@ -54,6 +54,7 @@ def run(chk, repo):
     chk.attempt(write_then_read, chk, repo)
     chk.attempt(cli_index, chk, repo)
     chk.attempt(naming, chk, op)
+    chk.attempt(naming_cli, chk, op, covered_by="cli_index", rules=("C07-N",))
     chk.attempt(naming_writer_reader, chk, op, covered_by="write_then_read", rules=("C07-N",))
     chk.attempt(cache_key, chk, op)
     chk.attempt(provenance, chk, op)
@@ -402,8 +403,43 @@ def naming(chk, op):
     chk.ok("C07-N", op.where(loc), f"local cache name is <image file name>{next(iter(sufs_seen))!r} on {len(reps)} representative paths (dotted names, sub-directories)")
     found["local"] = (None, next(iter(sufs_seen)), loc)
     rem = op.fi(REMOTE_LOC)
-    rret = [n for n in rem.own_nodes() if isinstance(n, ast.Return)][0].value
-    found["adjacent"] = _fstring_suffix(Flow(rem).expand(rret)) + (rem,)
+    # adjacent: remote_cache_location evaluated on the same representatives (it names a key of the product's mapper)
+    from ..shapes import Const as _Const, Interp as _Interp, ShapeError as _ShapeError, _Raise as _RaiseX
+    adj = set()
+    for p in reps:
+        I_ = _Interp(repo)
+        try:
+            v_ = I_.call(I_.lookup(rem.qualname, I_.module_scope(rem.module)), [_Const("memory://root"), _Const(p)], {})
+        except (_ShapeError, _RaiseX) as ex:
+            raise AnalysisError(f"{rem.key}: cannot evaluate the adjacent cache name for image {p!r}: {str(ex)[:120]}")
+        if not (isinstance(v_, _Const) and isinstance(v_.v, str)):
+            raise AnalysisError(f"{rem.key}: the adjacent cache name for image {p!r} does not fold to a constant ({v_!r:.60}); not decided")
+        if not v_.v.startswith(p):
+            chk.fail("C07-N", op.where(rem), f"adjacent cache name for image {p!r} is {v_.v!r}: not <image path> + suffix - the index is not looked up next to its image", key="naming:adjacent")
+            return
+        adj.add(v_.v[len(p):])
+    if len(adj) != 1:
+        chk.fail("C07-N", op.where(rem), f"adjacent cache name suffix depends on the image name: {sorted(adj)}", key="naming:adjacent")
+        return
+    found["adjacent"] = (None, next(iter(adj)), rem)
+    sufs = {k: v[1] for k, v in found.items()}
+    for k, (var, suf, fi) in found.items():
+        chk.require(suf is not None and suf == sufs["local"] and suf.startswith("."), "C07-N", op.where(fi),
+                    f"{k} cache name is <file name>{suf!r}",
+                    f"{k} cache name suffix is {suf!r}, the library's local cache uses {sufs['local']!r}: caches written there are never found",
+                    key=f"naming:{k}", sample={"site": k, "suffix": suf})
+    return sufs["local"]
+
+
+def naming_cli(chk, op):
+    """C07-N (form): the stand-alone tool writes `<directory> / f"{name}<suffix>"` with the suffix of the library's local cache.  When the
+    target expression has another form, what the tool writes is decided by evaluating it on a model directory (C07-N4)"""
+    repo = op.repo
+    loc = op.fi(LOCAL_LOC)
+    local = {(_local_name(repo, loc, p))[len(p.rsplit("/", 1)[-1]):] for p in ("IMG-HH-ALOS2012345678-140102-WBDR1.1__D-B3", "a.b/IMG-VV-X")}
+    if len(local) != 1:
+        raise AnalysisError(f"{loc.key}: the local cache name has no single suffix; not decided by the form rule")
+    local = next(iter(local))
     cli = op.fi(CLI_CREATE)
     cflow = Flow(cli)
     tgt = None
@@ -412,15 +448,11 @@ def naming(chk, op):
             t = cflow.expand(c.func.value)
             if isinstance(t, ast.BinOp) and isinstance(t.op, ast.Div):
                 tgt = t.right
-    found["cli"] = (_fstring_suffix(tgt) if tgt is not None else (None, None)) + (cli,)
-    sufs = {k: v[1] for k, v in found.items()}
-    for k, (var, suf, fi) in found.items():
-        chk.require(suf is not None and suf == sufs["local"] and suf.startswith("."), "C07-N", op.where(fi),
-                    f"{k} cache name is <file name>{suf!r}",
-                    f"{k} cache name suffix is {suf!r}, the library's local cache uses {sufs['local']!r}: caches written there are never found",
-                    key=f"naming:{k}", sample={"site": k, "suffix": suf})
-    # CLI: path = image_path.name and the same name is handed to open_image
-    ok_cli = found["cli"][0] is not None and "name" in norm(cflow.expand(ast.Name(id=found["cli"][0], ctx=ast.Load()))) if found["cli"][0] else False
+    var, suf = _fstring_suffix(tgt) if tgt is not None else (None, None)
+    if suf is None:
+        raise AnalysisError(f"{op.where(cli)}: the target of the tool's write is not `<directory> / f\"{{name}}<suffix>\"`; decided by evaluating the tool (C07-N4)")
+    chk.require(suf == local and suf.startswith("."), "C07-N", op.where(cli), f"cli cache name is <file name>{suf!r}",
+                f"cli cache name suffix is {suf!r}, the library's local cache uses {local!r}: caches written there are never found", key="naming:cli", sample={"site": "cli", "suffix": suf})
 
 
 def naming_writer_reader(chk, op):
